@@ -248,20 +248,6 @@ where
     }
 }
 
-/// type aliases: the name, the layout the type reports (trait functions), and its inherent INT_NBITS / FRAC_NBITS constants
-fn alias<A: Fx>(c: &mut Ctx, name: &str, int_nbits: u32, frac_nbits: u32) {
-    head(c, "alias");
-    c.wr.raw(",\"name\":");
-    c.wr.bytes(name.as_bytes());
-    c.wr.raw(",\"L\":");
-    c.wr.lay(Lay { s: A::min_value() < A::from_bits(A::from_raw(0).to_bits()), w: (std::mem::size_of::<A>() * 8) as u32, f: A::frac_nbits() });
-    c.wr.raw(",\"ibits\":");
-    c.wr.raw(&int_nbits.to_string());
-    c.wr.raw(",\"fbits\":");
-    c.wr.raw(&frac_nbits.to_string());
-    c.wr.raw("}");
-    c.wr.end();
-}
 macro_rules! aliases { ($c:expr; $($t:ident)*) => { $( alias::<$t>($c, stringify!($t), <$t>::INT_NBITS, <$t>::FRAC_NBITS); )* } }
 // ------------------------------------------------------------------ G05: iterator folds and predicates of the plain types
 fn nums(c: &mut Ctx, xs: &[u128], l: Lay) {
